@@ -429,6 +429,46 @@ func genC15(d *RunDesc, tier string) {
 			ops = append(ops, Op{K: "twin", Obj: &Ref{I: pick(wl, live)}, LB: wl.chance(1, 4)})
 		}
 	}
+	// Completion by assignment (one history in four, own PRNG stream): a receiver
+	// whose decode failed because a metric was missing is completed field by field
+	// from a decoded donor of the same kind, queried, changed again in a few fields
+	// from a second donor, queried again and compared with its query-free twin.
+	// Such an object has the donor's field values but the bookkeeping (names set) of
+	// the failed decode: whatever derives a key or a fast path from Encode/String or
+	// from the bookkeeping instead of the fields goes stale here and nowhere else.
+	if cp := newRng(simrt.Mix(d.Seed, 7)); cp.chance(1, 4) {
+		k := cp.intn(NKinds)
+		v1, _ := genValidVector(cp, k)
+		v2, _ := genValidVector(cp, k)
+		toks := strings.Split(v1, "/")
+		if len(toks) > 2 {
+			i := 1 + cp.intn(len(toks)-1)
+			if kindIsV2(k) {
+				i = cp.intn(len(toks))
+			}
+			toks = append(toks[:i:i], toks[i+1:]...)
+		}
+		broken := strings.Join(toks, "/")
+		a, b, c := slot, slot+1, slot+2
+		slot += 3
+		ops = append(ops,
+			Op{K: "dec", Kind: k, Vec: v1, Dst: a},
+			Op{K: "dec", Kind: k, Vec: v2, Dst: b},
+			Op{K: "dec", Kind: k, Vec: broken, Dst: c})
+		if cp.chance(1, 3) {
+			ops = append(ops, Op{K: "obs", Obj: &Ref{I: c}, Obs: "all", LB: true})
+		}
+		for i := 0; i < 25; i++ {
+			ops = append(ops, Op{K: "set", Obj: &Ref{I: c}, IArg: i, Donor: &Ref{I: a}})
+		}
+		ops = append(ops, Op{K: "obs", Obj: &Ref{I: c}, Obs: "all", LB: true})
+		for n := cp.between(1, 3); n > 0; n-- {
+			ops = append(ops, Op{K: "set", Obj: &Ref{I: c}, IArg: cp.intn(25), Donor: &Ref{I: b}})
+			ops = append(ops, Op{K: "obs", Obj: &Ref{I: c}, Obs: pick(cp, []string{"all", "Score", "Severity", "Encode", "String"}), LB: true})
+		}
+		ops = append(ops, Op{K: "twin", Obj: &Ref{I: c}, LB: true})
+		live = append(live, a, b, c)
+	}
 	// every history ends with a twin check of every live object (bounded)
 	for i, s := range live {
 		if i >= 24 {
